@@ -178,7 +178,11 @@ def check_hist(project: Project, rep):
     I.call_function(fit, [obj, dgm_input("A")], {}, None)
     written = set(obj.attrs)
     I.call_function(fit, [obj, dgm_input("B")], {}, None)
-    _hist_verdict(rep, fit, obj, "PersistenceImager", user_fixed={"p"})
+    if I.unmodelled or I.lossy:
+        why = I.lossy[0]["why"] if I.lossy else "unmodelled value: " + I.unmodelled[0]["tag"]
+        rep.unmodelled("TF-HIST", fit, fit.node, f"PersistenceImager: the two fits could not be followed exactly ({why})")
+    else:
+        _hist_verdict(rep, fit, obj, "PersistenceImager", user_fixed={"p"})
     # ---- landscaper, with and without user-fixed grid
     lc = project.cls(LSC)
     lfit = lc.methods["fit"]
@@ -189,6 +193,28 @@ def check_hist(project: Project, rep):
         obj = I.construct(LSC, [], dict(kwargs), None)
         I.call_function(lfit, [obj, Seq([dgm_input("A")])], {}, None)
         I.call_function(lfit, [obj, Seq([dgm_input("B")])], {}, None)
+        if I.unmodelled or I.lossy:
+            why = I.lossy[0]["why"] if I.lossy else "unmodelled value: " + I.unmodelled[0]["tag"]
+            rep.unmodelled("TF-HIST", lfit, lfit.node, f"PersistenceLandscaper ({label}): the two fits could not be followed "
+                                                       f"exactly ({why}): what they leave on the estimator is not decided")
+            continue
+        if "start" in kwargs:
+            # TF-FIXED: an end-point the user fixed is a number like any other (0 included): no fit replaces it
+            for a, u in (("start", "u0"), ("stop", "u1")):
+                v = obj.attrs.get(a)
+                if isinstance(v, Sc) and v.e == sym.Sym(u):
+                    rep.discharged("TF-FIXED", lfit, lfit.node, f"PersistenceLandscaper: a user-fixed `{a}` is still the user's "
+                                                                f"value after two fits")
+                elif isinstance(v, Sc) and v.e is not None and not I.unmodelled and not I.lossy and (
+                        _depends_on(v, "A") or _depends_on(v, "B")):
+                    rep.refuted("TF-FIXED", lfit, lfit.node,
+                                f"PersistenceLandscaper: the user fixed `{a}`, yet after fitting it is {sym.show(v.e)[:120]}: for "
+                                f"some value of the parameter (0, through a truth test, is the usual one) the fit replaces it by "
+                                f"what it finds in the data", construct=f"{lfit.qualname}: user-fixed {a} overwritten")
+                    obj.attrs[a] = Sc(sym.Sym(u))   # reported here; not again as 'latched'
+                else:
+                    rep.unmodelled("TF-FIXED", lfit, lfit.node, f"PersistenceLandscaper: value of a user-fixed `{a}` after fitting "
+                                                                f"not modelled: {v!r}"[:160])
         _hist_verdict(rep, lfit, obj, f"PersistenceLandscaper ({label})", user_fixed={"u0", "u1"})
 
 
@@ -245,6 +271,6 @@ def run(project: Project, rep, tier: str):
     check_ft(project, rep)
     check_hist(project, rep)
     check_order(project, rep)
-    for rn, n in (("TF-RO", 2), ("TF-FT", 3), ("TF-HIST", 3), ("TF-ORDER", 1)):
+    for rn, n in (("TF-RO", 2), ("TF-FT", 3), ("TF-HIST", 3), ("TF-ORDER", 1), ("TF-FIXED", 2)):
         rep.floor(rn, n)
     rep.trust("sklearn.base.TransformerMixin.fit_transform")
